@@ -11,9 +11,11 @@ instant of a submission / RST).
     come to `now`, nothing has fired yet) — what is due fires when the code gets to it.
   * Invariant: `Coap.Sched.FInv` (sessions established, `con_active ≤ NSTART`, delay queues of never-transmitted
     Confirmables) — the delay queue is part of the invariant, not excluded.
+  * Scope: the whole C06 alphabet `Sched.RunG` (every event but hold / disconnect): a NON is nothing for S, an ACK with an
+    invalid / request code is an `ack`, a response (cancel by token) is one `ack` per removed node.
   * Relation `RelF`: S's clock ≤ M's, S's pending list (ghost erased) = what M's delta list stands for AS LISTS, the
-    transmissions shown so far are equal AS LISTS (time, session, mid, number) and the outcome NACKs shown so far are equal
-    AS LISTS.  (The interleaving of one NACK with the first transmissions it unblocks at the same instant is the one thing
+    transmissions of Confirmables shown so far are equal AS LISTS (time, session, mid, number) and the outcome NACKs shown so
+    far are equal AS LISTS.  (The interleaving of one NACK with the first transmissions it unblocks at the same instant is the one thing
     not represented: the code transmits the delayed message BEFORE it calls the NACK handler; S reports the outcome and
     then sends.)
 Core Lean only.
